@@ -25,7 +25,8 @@ DEFAULT_WEIGHTS = {
 }
 
 OWNERS = ['o1', 'o2']
-DISPLAYS = ['s1', 's2']
+# names that differ only by case / by a character an SQL LIKE wildcard would match
+DISPLAYS = ['sa1', 's_1', 'S_1']
 CLIENTS = ['w1', 'w2', 'w3']
 STATES = ['ACTIVE', 'INACTIVE', 'COMPLETED', 'STATE_UNSPECIFIED']
 NAMESPACES = ['', 'user', ':a', 'a:b', 'é']
@@ -219,10 +220,11 @@ def pre_state_class(mdl, call):
 class ProgramRunner:
   """Executes calls on a servicer while checking them against the model."""
 
-  def __init__(self, backend='ram', with_monitor=True, servicer=None):
+  def __init__(self, backend='ram', with_monitor=True, servicer=None, early_stop_recycle_s=0.0):
     self.monitor = S.WriteMonitor() if with_monitor else None
     self.controller = S.Controller()
-    self.servicer = servicer or S.make_servicer(backend, self.controller, self.monitor)
+    self.servicer = servicer or S.make_servicer(backend, self.controller, self.monitor,
+                                                early_stop_recycle_s=early_stop_recycle_s)
     self.model = model_lib.ServiceModel(space_member=space_member)
     self.owners = set(OWNERS) | {'ghost'}
     self.trace = []
